@@ -181,6 +181,35 @@ HISTORY = {
     "misuse calls that follow valid calls of the same callable",
     "C20_r10_condition_parameters_cached_per_code_object": "missed at first (every contract had a source text of its own); caught after three "
     "contracts made by one factory are violated in all six orders",
+    "C01_r11_protected_members_skipped_by_the_metaclass": "missed at first (every generated member had a public name); caught after 8-10% of the "
+    "members of the hierarchies got protected names (_m...)",
+    "C02_r11_protected_members_skipped_by_the_metaclass": "missed at first (public member names only); caught after protected member names in the "
+    "hierarchies (the model learnt that a protected deleter runs inside the wrapped __delattr__)",
+    "C04_r11_object_defaults_never_count_as_inherited": "missed at first (no contracts on special methods that object provides defaults for); caught "
+    "after the scenario with postconditions on __str__ / __hash__ / __format__ / __eq__ inherited by overrides",
+    "C06_r11_string_literal_rows_off_by_one": "missed at first (multi-line literals only in C07's layouts, where the text is compared, not the values); "
+    "caught after 30 indented decorators whose lambda measures a multi-line literal / f-string",
+    "C07_r11_margin_as_spaces_only": "missed at first (all layouts were indented by blanks); caught after two layouts indented by tabs",
+    "C08_r11_captures_outside_the_suspension": "missed at first (no capture called the function it belongs to); caught after the self-referring "
+    "captures (a query asked for its own value, the same function on another argument; sync and async)",
+    "C09_r11_invariant_error_function_with_defaulted_parameters_refused": "missed at first (invariant factories took self or nothing); caught after "
+    "they got defaulted extra parameters like the factories of the other contracts",
+    "C11_r11_exceptions_of_overruled_groups_swallowed": "missed at first (the fault programs had one precondition group); caught after a sub-class "
+    "which adds a group of its own to the faulted method",
+    "C12_r11_flow_keyed_by_task_name": "missed at first (tasks had their default names); caught after the tasks of the import-order children carry "
+    "the name of the task that spawns them",
+    "C13_r11_wrapper_kind_chosen_by_the_unwrapped_function": "missed at first (no adapter between contracts and function that changes the kind of "
+    "the callable); caught after the async-adapter pairs",
+    "C15_r11_disabled_snapshot_refused_above_enabled_require": "missed at first (a disabled pair was never stacked on an explicitly enabled "
+    "precondition); caught after the mixed-enablement item of the child program",
+    "C16_r11_groups_deduplicated_by_condition_function": "missed at first (every contract had a condition function of its own); caught after the "
+    "hierarchy whose groups state the same predicate function with different errors",
+    "C17_r11_find_checker_steps_behind_partial": "missed at first (only functions and members were decorated afterwards); caught after steps that "
+    "decorate functools.partial objects binding existing functions and methods",
+    "C18_r11_getattr_treated_like_setattr": "missed at first by C18 (C03 caught the same change; no generated class defined __getattr__); caught after "
+    "look-ups through a state-changing __getattr__ are judged by hand",
+    "C19_r11_async_reserved_name_error_raised_outside_the_try": "missed at first (a refused call was never repeated); caught after the misuse call is "
+    "made again after its TypeError was swallowed",
 }
 
 
